@@ -218,7 +218,10 @@ def _dtype(ctx: Ctx) -> None:
                 n.func.id == "int_range_to_dtype":
             call = n
     ctx.need(call is not None, "Instance.__new__: int_range_to_dtype call")
-    kws = {k.arg: k.value for k in call.keywords}
+    from sa.srcmodel import bound_args
+    # moptipy.utils.nputils.int_range_to_dtype(min_value, max_value,
+    # force_signed=False)
+    kws = bound_args(call, ["min_value", "max_value", "force_signed"])
     ok = False
     detail = "max_value not understood"
     cm = _ConstructorModel(ctx, new)
@@ -226,7 +229,9 @@ def _dtype(ctx: Ctx) -> None:
     try:
         from fractions import Fraction
         from sa.casesplit import equivalent as _eqv, minmax_to_ite as _mmi
-        mx = cm.ev.num(cm.out, kws["max_value"])
+        from sa.checks.c07_bound import _canon
+        # `b if a < b else a` is max(a, b); nested maxima are flattened
+        mx = _canon(cm.ev.num(cm.out, kws["max_value"]))
         # c0 + max(args) covers max(arg + c0)
         c0 = mx.terms.get((), Fraction(0))
         a = (mx - Poly.const(c0)).as_atom()
